@@ -152,6 +152,12 @@ func rulesReadNCBI(c *Ctx, r *Report, rd, ex *ssa.Function) {
 				return
 			}
 			v := s.expr(mu.Value)
+			// the number parsed by a helper of the package that wraps ParseFloat and its error — rendered through its body
+			// as `0 if ParseFloat failed, else the number`: the number (the failure is returned as an error, B0)
+			if v.Op == "ite" && len(v.Args) == 3 && v.Args[2].Op == "extract:0" && len(v.Args[2].Args) == 1 && strings.HasPrefix(v.Args[2].Args[0].Op, "call:strconv.ParseFloat") &&
+				v.Args[0].String() == "(extract:1("+v.Args[2].Args[0].String()+") != nil)" && v.Args[1].Op == "const" {
+				v = v.Args[2]
+			}
 			// value: extract:0(call:strconv.ParseFloat(<elem>, 64))
 			if v.Op != "extract:0" || len(v.Args) != 1 || !strings.HasPrefix(v.Args[0].Op, "call:strconv.ParseFloat") || len(v.Args[0].Args) != 2 {
 				return
